@@ -66,9 +66,9 @@ func text(d Doc, side string) string {
 		w2 := (nameOf / len(given)) % len(sur)
 		// facts: a flat one (OCCU), one below an event (PLAC below BIRT is the same town on both sides, so the
 		// two PLAC nodes are equal and merge) and deep ones below nodes that are EQUAL on both sides (DATE, PLAC)
-		fmt.Fprintf(&b, "0 @%s@ INDI\n1 NAME %s /%s/\n1 BIRT\n2 DATE %d %s %d\n3 NOTE deepdate:%s:%d\n2 PLAC town%d\n3 NOTE deepplace:%s:%d\n2 NOTE place:%s:%d\n1 NOTE mark:%s:%d\n1 OCCU fact:%s:%d\n",
+		fmt.Fprintf(&b, "0 @%s@ INDI\n1 NAME %s /%s/\n1 BIRT\n2 DATE %d %s %d\n3 NOTE deepdate:%s:%d\n2 PLAC town%d\n3 NOTE deepplace:%s:%d\n2 NOTE place:%s:%d\n1 NOTE mark:%s:%d\n1 OCCU fact:%s:%d\n1 SEX %s\n2 NOTE sexnote:%s:%d\n",
 			x.P, given[w], sur[(w+w2)%len(sur)], 1+nameOf%27, []string{"Jan", "Mar", "May", "Jul", "Sep", "Nov"}[nameOf%6], year,
-			side, i+1, x.Who, side, i+1, side, i+1, side, i+1, side, i+1)
+			side, i+1, x.Who, side, i+1, side, i+1, side, i+1, side, i+1, []string{"M", "F"}[nameOf%2], side, i+1) // a fact below the SEX line too
 		if x.Who%2 == 0 && x.Like == 0 { // half of the people carry a unique identifier (the same on both sides)
 			fmt.Fprintf(&b, "1 _UID %032X\n", 0xFEED0000+x.Who)
 		}
@@ -178,7 +178,7 @@ func projectOut(doc *gedcom.Document, deep map[string]bool) Out {
 				if m := markRe.FindStringSubmatch(k.Value()); m != nil && m[2] == "" && k.Tag().Tag() == "NOTE" {
 					idx, _ := strconv.Atoi(m[3])
 					p.Src = append(p.Src, Src{m[1], idx})
-					for _, want := range []string{"1 OCCU fact:", "2 NOTE place:", "3 NOTE deepdate:", "3 NOTE deepplace:"} {
+					for _, want := range []string{"1 OCCU fact:", "2 NOTE place:", "3 NOTE deepdate:", "3 NOTE deepplace:", "2 NOTE sexnote:"} {
 						if !strings.Contains(g+"\n", fmt.Sprintf("%s%s:%d\n", want, m[1], idx)) {
 							p.Facts = false
 						}
